@@ -1,7 +1,6 @@
 package checks
 
 import (
-	"sync/atomic"
 	"bytes"
 	"encoding/binary"
 	"encoding/json"
@@ -10,6 +9,7 @@ import (
 	"math/rand/v2"
 	"os"
 	"path/filepath"
+	"sync/atomic"
 	"time"
 
 	"github.com/goose-lang/goose/machine/async_disk"
